@@ -343,6 +343,16 @@ func (c *cacheDouble) IncrBy(key string, d int64) (int64, error) {
 	return c.under.IncrBy(key, d)
 }
 
+// plainCache exposes only the five CacheStorage methods of a cache double: hybrid.IncrBy and hybrid.SetNX then take their fallback
+// paths (cache.Get + cache.Set, cache.Exists + cache.Set) — the facade's own read-modify-writes on the cache tier
+type plainCache struct{ d *cacheDouble }
+
+func (p plainCache) Set(key string, v any, ttl time.Duration) error { return p.d.Set(key, v, ttl) }
+func (p plainCache) Get(key string) (any, error)                    { return p.d.Get(key) }
+func (p plainCache) Delete(key string) error                        { return p.d.Delete(key) }
+func (p plainCache) Exists(key string) (bool, error)                { return p.d.Exists(key) }
+func (p plainCache) Close() error                                   { return nil }
+
 type persDouble struct {
 	mu sync.Mutex
 	m  map[string]any
@@ -485,6 +495,7 @@ type caseIn struct {
 	Sched   []int    `json:"sched"`
 	MaxWb   int      `json:"max_wb"`
 	Reader  bool     `json:"reader"` // the last caller only runs once everything else (write-backs included) has quiesced
+	Plain   bool     `json:"plain"`  // cache tiers without SetNX / IncrBy: the facade's fallback read-modify-writes run
 	Raw     bool     `json:"raw"`    // cache tiers hand lists through by reference (the real memory.Storage behaviour)
 	Locks   string   `json:"locks"`  // "" pinned code; "wb" key lock + synchronous cache fill; "wb+list" list operations hold it too
 	Nodes   int      `json:"nodes"`  // nodes mode: number of hybrid instances with private local caches
@@ -534,13 +545,20 @@ func newRig(c caseIn, s *sched) *rig {
 	if c.Shared {
 		r.shared = memory.New(ctx)
 		sc = &cacheDouble{under: r.shared, tier: tShared, s: s, raw: c.Raw}
+		if c.Plain {
+			sc = plainCache{sc.(*cacheDouble)}
+		}
 	}
 	var ps types.PersistentStorage
 	if c.Pers {
 		r.pers = &persDouble{m: map[string]any{}, s: s}
 		ps = r.pers
 	}
-	r.h = hybrid.NewWithSharedCache(ctx, &cacheDouble{under: r.local, tier: tLocal, s: s, raw: c.Raw}, sc, ps, cfg)
+	var lc types.CacheStorage = &cacheDouble{under: r.local, tier: tLocal, s: s, raw: c.Raw}
+	if c.Plain {
+		lc = plainCache{lc.(*cacheDouble)}
+	}
+	r.h = hybrid.NewWithSharedCache(ctx, lc, sc, ps, cfg)
 	return r
 }
 
@@ -1709,6 +1727,9 @@ func runProbe() map[string]bool {
 	seen = map[string]bool{}
 	_ = h.AppendToList("tunnox:temp:probe", "e1")
 	out["lock_in_append"] = seen["Get"]
+	seen = map[string]bool{}
+	_ = h.SetExpiration("tunnox:user:probe", time.Hour)
+	out["lock_in_setexp_read"] = seen["Get"]
 	pc.failSet = true
 	_ = h.Set("tunnox:user:probe", "v2", 0)
 	out["invalidates"] = pc.deleted
